@@ -13,4 +13,13 @@ CLAIMED = {
         'technique': CORR,
     },
 }
+CLAIMED['C02'] = {
+    'text': 'proof: the model of translate_status / exit_values / the three reporters equals the documented table for every '
+            'status, outcome, output mode and EVERY exit code of the action to check (C02_program_output_matches_doc etc., '
+            'closed under the global context); regenerated-table obligations (C02_gen_*) re-tie the model to the running code '
+            'over its complete finite domains on every run; ~1270 end-to-end runs of real cases through MainProgram.execute.',
+    'note': 'trusted: Coq kernel + vm_compute; tabulating translator harness/c02.py; the documented table in Spec/C02.v was typed '
+            'in by hand from the property statement/README; INTERNAL_ERROR endings only through synthetic results.',
+    'technique': 'Coq finite-table proof + tables regenerated from running code (vm_compute obligations) + end-to-end differential runs',
+}
 NOT_CLAIMED = {}
